@@ -118,16 +118,6 @@ func (s *tunnelServer) serve(tunnelMetadata metadata.MD) error {
 // itself is still valid for subsequent RPCs. This will be the case, for example, if the requested
 // method name is not implemented by the server.
 func (s *tunnelServer) createStream(ctx context.Context, streamID int64, frame *tunnelpb.NewStream) (bool, error) {
-	if s.isClosing() {
-		return true, status.Errorf(codes.Unavailable, "server is shutting down")
-	}
-
-	if frame.ProtocolRevision != tunnelpb.ProtocolRevision_REVISION_ZERO &&
-		frame.ProtocolRevision != tunnelpb.ProtocolRevision_REVISION_ONE {
-		return true, status.Errorf(codes.Unavailable, "server does not support protocol revision %d", frame.ProtocolRevision)
-	}
-	noFlowControl := frame.ProtocolRevision == tunnelpb.ProtocolRevision_REVISION_ZERO
-
 	s.mu.Lock()
 	defer s.mu.Unlock()
 
@@ -139,7 +129,20 @@ func (s *tunnelServer) createStream(ctx context.Context, streamID int64, frame *
 	if streamID <= s.lastSeen {
 		return false, fmt.Errorf("cannot create stream ID %d: that ID has already been used", streamID)
 	}
+	// Record the ID before any stream-level rejection below, so that frames
+	// the client already sent for a rejected stream are ignored instead of
+	// being treated as a protocol error that aborts the whole tunnel.
 	s.lastSeen = streamID
+
+	if s.isClosing() {
+		return true, status.Errorf(codes.Unavailable, "server is shutting down")
+	}
+
+	if frame.ProtocolRevision != tunnelpb.ProtocolRevision_REVISION_ZERO &&
+		frame.ProtocolRevision != tunnelpb.ProtocolRevision_REVISION_ONE {
+		return true, status.Errorf(codes.Unavailable, "server does not support protocol revision %d", frame.ProtocolRevision)
+	}
+	noFlowControl := frame.ProtocolRevision == tunnelpb.ProtocolRevision_REVISION_ZERO
 
 	frame.MethodName = strings.TrimPrefix(frame.MethodName, "/")
 	parts := strings.SplitN(frame.MethodName, "/", 2)
